@@ -82,7 +82,7 @@ Section SpecProps.
       destruct (e_syn e).
       + destruct (e_client e), (d_isn (sc_s c)) eqn:Hn, (e_pay e); cbn [is_req is_resp andb]; rewrite ?andb_false_r;
           try (repeat split; auto; discriminate).
-        destruct (Hrep (mkConn (sc_id c) (sc_c c) (mkDir (Some (e_seq e)) (d_map (sc_s c)) (d_recv (sc_s c)) (d_done (sc_s c)))) Hid) as [H1 H2].
+        destruct (Hrep (mkConn (sc_id c) (sc_c c) (mkDir (Some (e_seq e)) (d_map (sc_s c)) (d_recv (sc_s c)) (d_done (sc_s c)) (d_segs (sc_s c)))) Hid) as [H1 H2].
         rewrite H1, H2. cbn [sc_c sc_s d_done].
         destruct (e_conn e =? id) eqn:E; [destruct (Hcur eq_refl) as [-> ->]|]; repeat split; auto; discriminate.
       + destruct (e_pay e) as [|b r]; cbn [is_req is_resp andb]; rewrite ?andb_false_r;
